@@ -29,5 +29,6 @@ StatusesSim == {2, 5, 12, 17}
 TocShort == SubSeq(TocMC, 1, 2)
 TocLonger == {TocMC}
 AlphaEvolve == {T(1), D, M(3, 6)}
+AlphaStale == {T(1), M(3, 6)}
 NoBugs == {}
 ====
